@@ -45,6 +45,16 @@ fn main() {
         r.set_tags(&tags); r.set_head(&head); r.set_worktree(wt, "f0");
         repos.push((name.to_string(), r));
     }
+    // a branch whose short name is also a remote-tracking ref (not a tag: that would be ambiguous under either setting): how git abbreviates such a name depends on the
+    // user's core.warnAmbiguousRefs
+    {
+        let shape_amb = Shape { parents: vec![vec![], vec![0]], branches: [("main".to_string(), 0), ("origin/topic".to_string(), 1)].into_iter().collect(), cur: "origin/topic".into(), ops: vec![] };
+        let mut r = Repo::create(&root, "r_ambiguous", &shape_amb, &[midnight - 7200, midnight - 1]);
+        r.set_tags(&[Tag { name: "v1.2.3".into(), target: 0, annotated: false }]);
+        r.set_head(&Head::Branch("origin/topic".into()));
+        gitx::git(&r.dir, &["update-ref", "refs/remotes/origin/topic", &r.shas[0]], None);
+        repos.push(("r_ambiguous".to_string(), r));
+    }
     let any_cwd = vec![root.join("sibling"), PathBuf::from("/"), repos[0].1.dir.clone()];
     let mut jobs: Vec<Job> = vec![];
     // presets x {clean, ahead, dirty} via source none, both formats; calver expectations from R-CAL at a midnight-straddling timestamp
